@@ -371,13 +371,15 @@ Section Enum.
   Inductive mexp : Type :=
   | MNew
   | MRegister (m : mexp) (c : list K) (v : V)
-  | MOverride (m other : mexp).
+  | MOverride (m other : mexp)
+  | MClear (m : mexp).                  (* KeyMap::clear: mapping.clear() *)
 
   Fixpoint eval_trie (m : mexp) : trie :=
     match m with
     | MNew => TNil
     | MRegister m c v => register (eval_trie m) c v
     | MOverride m o => register_override (eval_trie m) (eval_trie o)
+    | MClear _ => TNil
     end.
 
   Fixpoint eval_dict (m : mexp) : dict :=
@@ -385,14 +387,16 @@ Section Enum.
     | MNew => []
     | MRegister m c v => reg c v (eval_dict m)
     | MOverride m o => spec_override (eval_dict m) (eval_dict o)
+    | MClear _ => []
     end.
 
   Theorem repr_mexp (m : mexp) : repr (eval_trie m) (eval_dict m).
   Proof.
-    induction m as [|m IH c v|m IH o IHo]; cbn.
+    induction m as [|m IH c v|m IH o IHo|m IH]; cbn.
     - apply repr_empty.
     - apply repr_register, IH.
     - apply repr_override; assumption.
+    - apply repr_empty.
   Qed.
 
   Fixpoint mexp_of_history (h : list (list K * V)) (m : mexp) : mexp :=
